@@ -41,6 +41,38 @@ CLAIMS = {
    technique="exhaustive enumeration of all 2^32 f32 bit patterns (thorough) / strided + special patterns (quick) and all u8; differential property testing raw vs clamped configuration",
    text="Both float conversions are compared with a reference clamp for every bit pattern (NaN must become a bound), Note for all 256 u8; differentials on generated histories show that an envelope / quantizer / receiver configured with the raw value behaves bit-identically to one configured with the clamped value.",
    note=TRUST + "numeric == decides 'unchanged' (-0.0 == 0.0)."),
+ "C04": dict(engine="midi_model", design="3 MIDI / C04",
+   technique="model-based property testing (proptest message histories vs independent MIDI decoder + held-note model)",
+   text="After every complete message of generated note-on/off/velocity-0/All-Notes-Off histories (pool of colliding notes, duplicates, stray releases, priority and retrigger switches, all channels) gate(), note_num() and velocity() are compared with a reference model of the outstanding note-ons.",
+   note=TRUST + "at most 32 outstanding note-ons (longer cases truncated and counted); CC123 with a non-zero value byte accepted under either reading."),
+ "C05": dict(engine="midi_model", design="3 MIDI / C05",
+   technique="model-based property testing (proptest histories with edge polls at arbitrary positions vs two-latch model)",
+   text="Every rising_gate()/falling_gate() poll placed anywhere in generated histories is compared with a two-latch reference model, plus the implications rising=>gate high and falling=>gate low.",
+   note=TRUST + "edges are latches: two transitions between two polls give one true, as the statement's 'unless ... before it is read' clauses say."),
+ "C06": dict(engine="midi_stream+midi_meta", design="3 MIDI / C06",
+   technique="differential + metamorphic property testing on generated byte streams (and libFuzzer target midi_stream in the thorough tier)",
+   text="After every byte of unstructured and structured generated streams all getters of the receiver equal those of a second receiver fed only the canonical supported listened-channel messages found by an independent MIDI 1.0 decoder; no panic with debug assertions on; decoder-free metamorphic check: inserting real-time bytes anywhere and foreign-channel/unsupported messages between messages changes no output.",
+   note=TRUST + "the reference decoder encodes MIDI 1.0 framing as listed in the evidence assumptions; the differential isolates framing from note/controller semantics (those are C04/C05/C18)."),
+ "C07": dict(engine="quant_history", design="3 Quantizer / C07",
+   technique="model-based property testing (proptest allow/forbid/convert histories vs 12-bit scale model)",
+   text="After every edit the 12 is_allowed() answers equal the model scale (incl. clamped note numbers and the would-empty rule); every conversion's pitch class must be allowed at that moment, with histories that forbid the class of the note just returned and convert the same or a nudged input in every octave.",
+   note=TRUST + "none beyond the scale model."),
+ "C08": dict(engine="quant_fresh", design="3 Quantizer / C08",
+   technique="exhaustive over all 4095 scales with generated input grids (all decision boundaries) and complete microvolt sweeps for selected scales; acceptance-predicate oracle",
+   text="For every non-empty scale a fresh quantizer converts a dense input list containing every decision boundary of every pair of notes (+-1 uV, +-20 uV), random and out-of-range inputs; the result must satisfy the statement's rule (one-semitone-below window, otherwise nearest, ties within 10 uV) computed independently in f64, and never decrease along sorted inputs. Thorough adds complete 10,000,001-value sweeps for 46 scales.",
+   note=TRUST + "10 uV tie tolerance."),
+ "C09": dict(engine="quant_history", design="3 Quantizer / C09",
+   technique="model-based + differential property testing (window model inside, field-by-field comparison with a history-free instance outside)",
+   text="On generated ramps, boundary noise, jumps and scale edits: inside the widened bucket of a still-allowed previous note the note must not change; outside it the whole record must equal that of a fresh quantizer with the same scale; derived: sub-hysteresis noise gives <= 1 change, rising inputs give non-decreasing notes.",
+   note=TRUST + "20 uV strips at the window edges accept either outcome."),
+ "C18": dict(engine="midi_c18_cell+midi_model", design="3 MIDI / C18",
+   technique="exhaustive enumeration channel x controller x value and all 16384 bend values (thorough: all 16 channels), plus model-based proptest histories",
+   text="Every controller number x value on the listened and on a foreign channel from a non-default prior state, all pitch-bend values LSB first, value-axis scaling; compared with the statement's routing table bit-exactly; histories interleave controllers, bend and notes.",
+   note=TRUST + "CC121 with a non-zero value accepted under either reading (must be all-or-nothing)."),
+ "C19": dict(engine="quant_history+quant_fresh", design="3 Quantizer / C19",
+   technique="property-based testing over histories and all scales (record consistency oracle)",
+   text="Every conversion of generated histories and of fresh quantizers over all 4095 scales: stairstep == note/12 bit-exact, stairstep+fraction within 2 ulps of the input (or its clamped value outside [0,10]), chromatic/no-history fraction in [0,1) semitone, window-kept fraction in [-0.1,1.1] semitones.",
+   note=TRUST + "the window clause is armed only when the record shows the window path was taken (fraction reproduces the unclamped input); NaN inputs are left to C17."),
 }
 
 NOT_YET = {}
